@@ -295,6 +295,9 @@ func runC03(c C03Case) *Outcome {
 			q := c.Queries[op.Q%len(c.Queries)]
 			opts := c.Options[op.O%len(c.Options)]
 			opts.UseNLP, opts.UseFuzzy = false, false
+			if opts.Limit <= len(cur) {
+				opts.Limit = len(cur) + 1 // the oracle speaks about everything a search CAN return: the limit must not cut
+			}
 			got := db.SearchUniversal(q, opts.toDB())
 			log = append(log, fmt.Sprintf("search(%q,%+v)=%d", q, opts, len(got)))
 			checked++
